@@ -134,6 +134,15 @@ func c06Files() []c06File {
 		add("odd-comments", strings.ReplaceAll(strings.ReplaceAll(canon, "package a\n", "/* lead */ package /* mid */ a // trail\n"), "return x, nil", "return /* r */ x, /* n */ nil // done"), false)
 		add("build-tags", "//go:build linux && !windows\n// +build linux,!windows\n\n// Package a doc.\n"+canon, false)
 		add("extra-blank-lines", strings.ReplaceAll(canon, "\n\n", "\n\n\n\n"), false)
+		if b.id == "unnamed-imports" {
+			// larger than any default buffer of the standard library (64 KiB), and without final newline
+			var big strings.Builder
+			big.WriteString(canon)
+			for i := 0; big.Len() < 70000; i++ {
+				fmt.Fprintf(&big, "\nvar v%05d = other.Nomatch(%d) // not gofmt-ed:  %d", i, i, i)
+			}
+			add("big-70k", big.String(), false)
+		}
 		add("semicolons", strings.ReplaceAll(canon, "\t_ = s\n", "\t_ = s; _ = s;\n"), false)
 		if b.imports != "" && strings.Contains(b.imports, "(") {
 			un := strings.Replace(canon, b.imports, "import (\n\t\"strings\"\n\n\t\"os\"\n\t\"fmt\"\n\t\"os\"\n)\n", 1)
